@@ -19,6 +19,7 @@ package main
 //	    | ( rec S S SZ* )
 //	    | ( union S+ ) | ( xor S+ ) | ( and S S )
 //	    | ( id NAME S )            S.Meta(GlobalMeta{ID: NAME}) — the converter hoists it into $defs (NAME is one token)
+//	    | ( lazy FL S )            types.LazyAny(func() any { return S }) with FL = -- | o- | -n | on (Optional()/Nilable() on the lazy schema); top level only
 //	    | ( re NAME ) among CK     String().Regex(<table entry NAME>)   (rxTable in gen.go / Rx in the Lean model)
 //	J ::= n | t | f | qZ | s:CP.CP… | ( a J* ) | ( o ( STR J )* )
 
@@ -136,6 +137,8 @@ func (s *Sch) String() string {
 		return "( " + s.K + " " + s.Elem.String() + " )"
 	case "id":
 		return "( id " + s.Name + " " + s.Elem.String() + " )"
+	case "lazy":
+		return "( lazy " + s.Kind + " " + s.Elem.String() + " )"
 	case "obj":
 		var b strings.Builder
 		p := "-"
